@@ -11,9 +11,11 @@ import json, os, sys
 RECV_DECL = {"ref": "&self", "mut": "&mut self", "own": "self", "pinref": "self: Pin<&Self>", "pinmut": "self: Pin<&mut Self>"}
 ARG_TY = {"none": None, "i64": "i64", "cstruct": "Pt", "ref": "&u64", "mutref": "&mut u64", "slice": "&[u8]",
           "mutslice": "&mut [u8]", "str": "&str", "opt": "Option<u64>", "optnpo": "Option<&u64>", "optptr": "Option<*const u8>",
+          "optmut": "Option<&mut u64>", "slice64": "&[u64]", "optstruct": "Option<Pt>", "rawptr": "*const u8",
           "result": "Result<u64, u64>", "into": "impl Into<u64>", "callback": "OpaqueCallback<u64>", "iter": "CIterator<u64>"}
 RET_TY = {"unit": None, "i64": "i64", "cstruct": "Pt", "slice": "&[u8]", "mutslice": "&mut [u8]", "str": "&str",
           "opt": "Option<u64>", "optnpo": "Option<&u64>", "optptr": "Option<*const u8>", "result": "Result<u64, ()>", "resunit": "Result<(), ()>",
+          "refret": "&u64", "mutrefret": "&mut u64", "optstruct": "Option<Pt>",
           "resneg": "Result<u64, NegErr>"}
 
 # callee: compute digest `d` of the received argument, log it (and its address), write through &mut shapes
@@ -29,6 +31,10 @@ ARG_BODY = {
     "opt": "let d = match a { None => -1, Some(v) => (v % 100000) as i64 }; log(d);",
     "optnpo": "let d = match a { None => -1, Some(v) => *v as i64 }; log(d); log(a.map(|v| v as *const u64 as i64).unwrap_or(0));",
     "optptr": "let d = match a { None => -1, Some(p) => unsafe { *p as i64 * 7 + *p.add(3) as i64 } }; log(d); log(a.map(|p| p as i64).unwrap_or(0));",
+    "optmut": "let d = match &a { None => -1, Some(v) => **v as i64 }; log(d); log(a.as_ref().map(|v| &**v as *const u64 as i64).unwrap_or(0)); if let Some(v) = a { *v = v.wrapping_mul(3).wrapping_add(2); }",
+    "slice64": "let d = a.iter().map(|&b| (b % 1000) as i64).sum::<i64>() + a.len() as i64 * 1000; log(d); log(a.as_ptr() as i64);",
+    "optstruct": "let d = match a { None => -1, Some(p) => (p.x as i64) * 1000 + p.y + p.z as i64 }; log(d);",
+    "rawptr": "let d = if a.is_null() { -1 } else { unsafe { *a as i64 * 7 + *a.add(3) as i64 } }; log(d); log(a as i64);",
     "result": "let d = match a { Ok(v) => v as i64, Err(e) => -(e as i64) }; log(d);",
     "into": "let v: u64 = a.into(); let d = v as i64; log(d);",
     "callback": "let mut a = a; let base = (self.st.get() % 50) as u64; let n = (0..3u64).map(|i| base + i).feed_into_mut(&mut a); let d = n as i64; log(d);",
@@ -51,6 +57,9 @@ def ret_expr(ret, recv):
         "opt": "if s2 % 2 == 0 { Some(s2 as u64) } else { None }",
         "optnpo": "{ let this = %s; if s2 %% 2 == 0 { log(&this.cell as *const u64 as i64 - this as *const Imp as i64); Some(&this.cell) } else { None } }" % tr,
         "optptr": "if s2 % 2 == 0 { log(1); Some(&self.cell as *const u64 as *const u8) } else { log(0); None }",
+        "refret": "{ let this = %s; log(&this.cell as *const u64 as i64 - this as *const Imp as i64); &this.cell }" % tr,
+        "mutrefret": "{ let this = %s; log(&this.cell as *const u64 as i64 - &*this as *const Imp as i64); &mut this.cell }" % tm,
+        "optstruct": "if s2 % 2 == 0 { Some(Pt { x: s2 as i32, y: s2 * 2, z: (s2 % 251) as u8 }) } else { None }",
         "result": "if s2 % 2 == 0 { Ok(s2 as u64) } else { Err(()) }",
         "resunit": "if s2 % 2 == 0 { Ok(()) } else { Err(()) }",
         "resneg": "if s2 % 2 == 0 { Ok(s2 as u64) } else { Err(NegErr { code: -2 - (s2 % 5) as i32 }) }",
@@ -68,6 +77,9 @@ RET_DIGEST = {
     "opt": "let rd: Vec<i64> = match r { None => vec![-1], Some(v) => vec![1, v as i64] };",
     "optnpo": "let rd: Vec<i64> = match r { None => vec![-1], Some(v) => vec![1, *v as i64, v as *const u64 as i64 - imp_addr] };",
     "optptr": "let rd: Vec<i64> = match r { None => vec![-1], Some(p) => vec![1, (!p.is_null()) as i64] };",
+    "refret": "let rd: Vec<i64> = vec![*r as i64, r as *const u64 as i64 - imp_addr];",
+    "mutrefret": "let rd: Vec<i64> = vec![*r as i64, r as *const u64 as i64 - imp_addr]; *r = r.wrapping_add(5);",
+    "optstruct": "let rd: Vec<i64> = match r { None => vec![-1], Some(p) => vec![1, p.x as i64, p.y, p.z as i64] };",
     "result": "let rd: Vec<i64> = match r { Ok(v) => vec![0, v as i64], Err(()) => vec![1] };",
     "resunit": "let rd: Vec<i64> = match r { Ok(()) => vec![0], Err(()) => vec![1] };",
     "resneg": "let rd: Vec<i64> = match r { Ok(v) => vec![0, v as i64], Err(e) => vec![1, e.code as i64] };",
@@ -111,6 +123,21 @@ def arg_setup(arg, v):
     if arg == "optptr":
         val = ["None", "Some(pbuf.as_ptr())"][v]
         return ("let pbuf: [u8; 4] = [1, 2, 3, 4]; let av: Option<*const u8> = %s; let sent_d = match av { None => -1, Some(p) => unsafe { *p as i64 * 7 + *p.add(3) as i64 } }; let sent_addr = av.map(|p| p as i64).unwrap_or(0);" % val,
+                "av", "let post: Vec<i64> = vec![];")
+    if arg == "optmut":
+        val = ["None", "Some(&mut cellv)"][v]
+        return ("let mut cellv: u64 = 5; let sent_addr = %s; let av: Option<&mut u64> = %s; let sent_d = match &av { None => -1, Some(v) => **v as i64 };" % (["0i64", "&cellv as *const u64 as i64"][v], val),
+                "av", "let post: Vec<i64> = vec![cellv as i64];")
+    if arg == "slice64":
+        rng = ["[1..1]", "[..]"][v]
+        return ("let av: Vec<u64> = vec![u64::MAX, 2, 250]; let sent_d = av%s.iter().map(|&b| (b %% 1000) as i64).sum::<i64>() + av%s.len() as i64 * 1000; let sent_addr = av%s.as_ptr() as i64;" % (rng, rng, rng),
+                "&av%s" % rng, "let post: Vec<i64> = vec![];")
+    if arg == "optstruct":
+        val = ["None", "Some(Pt { x: -3, y: 9, z: 200 })"][v]
+        return "let av: Option<Pt> = %s; let sent_d = match av { None => -1, Some(p) => (p.x as i64) * 1000 + p.y + p.z as i64 }; let sent_addr = 0i64;" % val, "av", "let post: Vec<i64> = vec![];"
+    if arg == "rawptr":
+        val = ["std::ptr::null()", "pbuf.as_ptr()"][v]
+        return ("let pbuf: [u8; 4] = [1, 2, 3, 4]; let av: *const u8 = %s; let sent_d = if av.is_null() { -1 } else { unsafe { *av as i64 * 7 + *av.add(3) as i64 } }; let sent_addr = av as i64;" % val,
                 "av", "let post: Vec<i64> = vec![];")
     if arg == "result":
         val = ["Ok(3)", "Err(9)"][v]
@@ -158,7 +185,7 @@ def forwardable(d):
     # the generated `impl T for Fwd<CGlueO>` has no `CGlueT: 'a` bound, so a trait whose method returns data
     # borrowed from `self` with an elided lifetime does not compile under #[cglue_forward] (E0311): a limitation
     # of the generator, outside every quantifier (programs that do not compile)
-    return d["recv"] in FWD_CONTAINERS and d["ret"] not in ("slice", "mutslice", "str", "optnpo")
+    return d["recv"] in FWD_CONTAINERS and d["ret"] not in ("slice", "mutslice", "str", "optnpo", "refret", "mutrefret")
 
 
 def render_trait(k, d):
